@@ -98,7 +98,11 @@ def _gen_case(res, case):
     add_neutral_deletions(rds, rng, db.neutral)
     scratch = util.scratch_dir()
     a, b = db.neutral
-    if rng.random() < 0.5:
+    r_ = rng.random()
+    if r_ < 0.25:
+        a2 = rng.randint(a + 200, b - 200)  # a neutral region shorter than the reads
+        cn_region = GRange(g.chr, a2, a2 + rng.choice([20, 40, 70]))
+    elif r_ < 0.6:
         a2 = rng.randint(a, a + (b - a) // 3)
         b2 = rng.randint(b - (b - a) // 3, b)
         cn_region = GRange(g.chr, a2, b2)
@@ -221,7 +225,12 @@ def _profile_cmd_case(res, case):
               file=[pf.neutral_value, list(pf.cn_region)], bam=[pb.neutral_value, list(pb.cn_region)], **desc)
     copies = _sim.random_genotype(db, rng, n=2)
     bam, rds = db.sim(copies, "pc_s.bam", 100, 20)
-    s_f = Sample(g, pf, bam)
+    try:
+        s_f = Sample(g, pf, bam)
+    except Exception as e:
+        res.check("profile_file_roundtrip", False, f"a sample cannot be loaded with the written profile: {e!r}",
+                  file_neutral=list(pf.cn_region), **desc)
+        return
     s_b = Sample(g, pb, bam)
     res.check("profile_file_roundtrip", region_depths(s_f) == region_depths(s_b),
               "sample normalised with the written profile reads differently than with the BAM profile", **desc)
